@@ -17,6 +17,7 @@ import impl_next
 import trainer_io
 import unicode_pool
 from props.C04 import collect
+from omen_level import training_bytes      # (one line feed / one byte order mark per file for utf-16)
 
 ID = "C03"
 TRUSTED = ["C03_reproduced is ONE theorem over ONE executable pipeline model (coq/theories/Pipeline.v: check_valid, multi-word pass, "
@@ -563,8 +564,8 @@ def run(ctx):
             # text that is NOT in Unicode normal form C next to its NFC twin, as two different training passwords with counts
             # of their own (harness/unicode_pool.py: base letter + combining mark, marks in non-canonical order, singletons
             # such as U+212B / U+037E, Hangul conjoining jamo, CJK compatibility ideographs; q + U+0301 as the stable control).
-            # Only utf-8 can hold them; the generated part is cut so that the pipeline model runs on the same list.
-            enc = "utf-8"
+            # Only utf-8 / utf-16 can hold them; the generated part is cut so that the pipeline model runs on the same list.
+            enc = "utf-16" if (i // 6) % 2 == 1 else "utf-8"
             passwords = trainer_io.flatten([e for e in entries if trainer_io.encodable(e[0], enc)][:5])
             for x in unicode_pool.passwords(ctx.rng, 3 + (i // 6) % 2):
                 passwords += [x] * ctx.rng.choice([1, 1, 2, 3])
@@ -586,8 +587,7 @@ def run(ctx):
         pump()
         fn = os.path.join(sc, "train_%d.txt" % i)
         with open(fn, "wb") as f:
-            for p in passwords:
-                f.write(p.encode(enc) + b"\n")
+            f.write(training_bytes(passwords, None, enc))
         name = "T%d" % i
         rc, out, err, tree = trainer_io.train_cli(code, fn, name, enc, coverage=cov, ngram=ngram)
         replay = {"passwords": passwords, "encoding": enc, "coverage": cov, "ngram": ngram}
@@ -678,7 +678,10 @@ def run(ctx):
     corr.extend(trainer_run_tie.obligations(("equalities", "instance")))
     rule = ("generated training lists (words, capitalised words, multi-words, digits, years, symbols, keyboard walks, context strings, "
             "spaces, Latin-1 / Cyrillic / Cherokee / Georgian letters and digraphs with a separate title case, three-word passwords followed by "
-            "their two-word tails, non-ASCII spaces / format / private-use characters, e-mails, websites, duplicates) in utf-8 / latin-1 / cp1251, coverage 0.3 / 0.6 / 1, n-gram 2-4; "
+            "their two-word tails, non-ASCII spaces / format / private-use characters, passwords that are NOT in Unicode normal form C - combining "
+            "marks after their base letter, two marks in non-canonical order, singletons (U+212B, U+037E ...), Hangul conjoining jamo, CJK "
+            "compatibility ideographs - next to their NFC twins as different passwords with counts of their own (utf-8 / utf-16; also as "
+            "alpha words of the large-count lists), e-mails, websites, duplicates) in utf-8 / latin-1 / cp1251, coverage 0.3 / 0.6 / 1, n-gram 2-4; "
             "PLUS training histories with large counts (--prefixcount lists and repeated lines, blocks or first-seen order different from "
             "count order): 2-5 values of ONE rules file - alpha words of one length, digits / symbols of one length, years, keyboard "
             "walks, context strings, capitalisation masks of one length, base structures; every family first in turn, with --prefixcount and with repeated lines, up to two more families per list - seen "
@@ -715,8 +718,7 @@ def replay(ctx, data):
     else:
         rle = None
         with open(fn, "wb") as f:
-            for p in inp["passwords"]:
-                f.write(p.encode(enc) + b"\n")
+            f.write(training_bytes(inp["passwords"], None, enc))
         distinct = list(dict.fromkeys(inp["passwords"]))
     rc, out, err, tree = trainer_io.train_cli(code, fn, "RP", enc, coverage=inp["coverage"], ngram=inp.get("ngram", 4),
                                               prefixcount=prefixcount, timeout=900)
